@@ -329,6 +329,63 @@ def rdf_model_check(c):
             f"strs_eqb {cc.coq_strs(dirs)} (r_dirs r)")
 
 
+async def link_pair_case(order, d=""):
+    """Directed: a step made a data file and, as a second output, a symbolic link to it; both are queued with the
+    hash StepUp recorded (for the link: the hash of what it led to) and nobody touched them.  `order`: whether the
+    name of the target sorts after the link's (then the single reverse-sorted loop removes the target first)."""
+    from stepup.core.finalize import remove_deletable_files
+    from stepup.core.hash import FileHash
+    hids = cc.HashIds()
+    data = d + ("zdata.txt" if order == "target-sorts-after" else "adata.txt")
+    link = d + "mlink.txt"
+    with cc.project_dir():
+        async with WF() as w:
+            wf = w.wf
+            if d:
+                os.makedirs(d, exist_ok=True)
+            Path(data).write_text("data made by the step")
+            os.symlink(os.path.basename(data), link)
+            owned = {}
+            async with w.db:
+                for p in (data, link):
+                    wf.to_be_deleted[p] = FileHash.unknown().refreshed(p)
+                    owned[p] = {"volatile": False, "digest": through(lentry(p))[1]}
+                    wf.mark_dir_to_be_deleted(Path(p).parent)
+            before = lsnap(".", hids)
+            queue = {str(k): (None if v is None else "hash") for k, v in wf.to_be_deleted.items()}
+            qfiles, qdirs = cc.dump_queue(wf, hids)
+            client, reporter = cc.make_reporter()
+            await remove_deletable_files(wf, reporter)
+            after = lsnap(".", hids)
+            removed = [x for t, x in client.reports if t == "REMOVE"]
+            left = {str(k): str(v) for k, v in wf.to_be_deleted.items()}
+    return {"desc": [[link, "step-link", None], [data, "hashed-data", None]], "queue": queue, "before": before,
+            "after": after, "removed_events": removed, "owned": owned, "left": left, "qfiles": qfiles,
+            "qdirs": sorted(qdirs), "directed": {"family": "link-pair", "order": order, "dir": d}}
+
+
+def link_pair_witness(order, d=""):
+    """The same at the Workflow level (witness for finalize_case): step mk declares both outputs, runs, and is
+    dropped by the next run of the plan; nobody touches the files."""
+    data = d + ("zdata.txt" if order == "target-sorts-after" else "adata.txt")
+    link = d + "mlink.txt"
+
+    def witness(b):
+        b.write("src.txt", "source")
+        b.declare_static(b.w.plan, "src.txt")
+        b.force_links = {link: data}
+        b.define(b.w.plan, "mk", inp=["src.txt"], out=[data, link])
+        b.define(b.w.plan, "other", inp=["src.txt"], out=["other.txt"])
+        b.complete_all(list(b.steps))
+        b.meta()
+        b.log.append(["build-1 complete:", link, "is a symbolic link to", data, "made by mk"])
+        b.rerun(b.w.plan, keep_step=lambda inf: str(inf.command) != "mk")
+        b.log.append(["build-2: the plan no longer declares mk"])
+        return list(b.steps)
+    witness.info = {"family": "link-pair", "order": order, "dir": d, "link": link, "target": data}
+    return witness
+
+
 def rdf_oracle(c):
     out = judge("rdf", c["before"], c["after"], c["owned"], why_not=lambda p: "not-queued")
     if c["left"]:
@@ -369,7 +426,7 @@ def rdf_orphans(c):
 
 
 def rdf_witness(c):
-    return {k: c[k] for k in ("desc", "queue", "before", "after", "removed_events")}
+    return {k: c.get(k) for k in ("directed", "desc", "queue", "before", "after", "removed_events")}
 
 
 # ---------------------------------------------------------------------------------------------
@@ -384,6 +441,7 @@ class OwnBuilder(cc.Builder):
     def __init__(self, w, rng, hids=None):
         super().__init__(w, rng, disk=True)
         self.hids = hids
+        self.force_links = {}   # output path -> the other output it is a symbolic link to (directed cases)
         self.recorded = {}      # path -> lstat entry right after the step wrote it
         self.link_prob = 0.25
 
@@ -395,6 +453,13 @@ class OwnBuilder(cc.Builder):
             return False
         if os.path.lexists(path):
             os.remove(path)
+        if path in self.force_links:
+            target = self.force_links[path]
+            if not os.path.lexists(target):
+                self.write(target, "built " + target)
+            os.symlink(_rel(target, path), path)
+            self.recorded[path] = lentry(path, self.hids)
+            return True
         cands = sorted(q for q in set(self.recorded) | self.statics if q != path and os.path.isfile(q))
         if content.startswith(("built ", "volatile ")) and cands and self.rng.random() < self.link_prob:
             os.symlink(_rel(self.rng.choice(cands), path), path)
@@ -404,11 +469,11 @@ class OwnBuilder(cc.Builder):
         return True
 
 
-def own_edits(b, rng):
+def own_edits(b, rng, quiet=False):
     edits = {}
     serial = 0
     for p in sorted(b.written):
-        if rng.random() >= 0.55:
+        if quiet or rng.random() >= 0.55:
             continue
         serial += 1
         kind = rng.choice(TAMPERS + ["neighbour", "adopt-static"])
@@ -464,7 +529,7 @@ def _owned_from_graph(b, graph, edits, selectable=None):
     return owned, reasons
 
 
-async def finalize_case(rng, guard, witness=None):
+async def finalize_case(rng, guard, witness=None, quiet=False):
     """cc.disk_case with symbolic links: the project is grown by OwnBuilder, the user edits are own_edits, the
     snapshots are lstat snapshots; no model involved."""
     from stepup.core.enums import StepState
@@ -488,7 +553,7 @@ async def finalize_case(rng, guard, witness=None):
                     b.meta()
                     b.outdate_some(made, prob=0.2)
                     b.evolve(made)
-                edits = own_edits(b, rng)
+                edits = own_edits(b, rng, quiet)
                 skipped = False
                 for st in list(w.wf.nodes(Step)):
                     if st.label == "./plan.py" or st.get_state() == StepState.SUCCEEDED:
@@ -523,6 +588,7 @@ async def finalize_case(rng, guard, witness=None):
             res["edits"] = edits
             res["log"] = b.log
             res["recorded"] = dict(b.recorded)
+            res["directed"] = getattr(witness, "info", None)
             res["owned"], res["reasons"] = _owned_from_graph(b, res["before_graph"], edits)
     return res
 
@@ -574,7 +640,7 @@ def finalize_orphans(res):
 
 
 def finalize_witness(res):
-    return {"operations": res["log"], "guard": res["guard"], "returncode": res["returncode"], "edits": res["edits"],
+    return {"directed": res.get("directed"), "operations": res["log"], "guard": res["guard"], "returncode": res["returncode"], "edits": res["edits"],
             "tree_before": res["before"], "tree_after": res["after"], "removed_events": res["removed_events"]}
 
 
@@ -649,6 +715,10 @@ GUARDS = ["none", "none", "none", "targets", "incomplete", "no-clean"]
 
 async def _run_all(ctx, n_rdf, n_fin, n_clean):
     out = {"rdf": [], "fin": [], "clean": []}
+    for j, order in enumerate(["target-sorts-after", "target-sorts-before"]):
+        d = ["", "d1/"][(j + ctx.seed) % 2]
+        out["rdf"].append(await link_pair_case(order, d))
+        out["fin"].append(await finalize_case(ctx.rng, "none", witness=link_pair_witness(order, d), quiet=True))
     for k in range(n_rdf):
         # every tamper is forced once per len(TAMPERS) cases, the rest is random
         out["rdf"].append(await rdf_case(ctx.rng, force=TAMPERS[(k + ctx.seed) % len(TAMPERS)] if k % 2 == 0 else None))
